@@ -261,7 +261,7 @@ fn cmd_run(args: &[String]) -> i32 {
     }
     let summary = json!({
         "worker": worker,
-        "meta": {"rule": engine.nontrivial_rule(), "real": engine.real_components(), "stub": engine.stub_components()},
+        "meta": {"rule": engine.nontrivial_rule(), "real": engine.real_components(), "stub": engine.stub_components(), "required_probes": engine.required_probes()},
         "runs": runs,
         "executions": execs,
         "scheduler_steps": steps,
